@@ -89,6 +89,7 @@ typedef enum WBXMLError_e {
     WBXML_ERROR_NULL_STRING_TABLE =                           52,
     WBXML_ERROR_STRING_EXPECTED =                             53,
     WBXML_ERROR_STRTBL_LENGTH =                               54,   
+    WBXML_ERROR_NESTING_TOO_DEEP =                            55,
     WBXML_ERROR_UNKNOWN_ATTR =            60,
     WBXML_ERROR_UNKNOWN_ATTR_VALUE =      61,
     WBXML_ERROR_UNKNOWN_EXTENSION_TOKEN = 62,
